@@ -432,6 +432,9 @@ mismatch between values and axes""".format(inferred, self.values.shape)
         if _is_dictlike(nested_data):
             if label0 is None:
                 label0 = dictkeys(nested_data)
+            else:
+                # the labels given for that dimension select the entries by key, in their own order
+                nested_data = dict((k, nested_data[k]) for k in label0)
             if callable(nested_data.values):
                 nested_data = dictvalues(nested_data)
             else:
